@@ -87,7 +87,7 @@ def gen_script(rnd, long=False):
             # a message no frame has room for (its header may well encode): dropped, and
             # nothing of it may reach the wire
             ops.append(["send_bad", rnd.choice(["struct", "value", "unregistered"]),
-                        rnd.choice(["inline", "t1", "hdr"])])
+                        rnd.choice(["inline", "t1", "hdr", "hdr_same"])])
         else:
             ops.append(["open"])   # open_socket() on a socket that is open already: a no-op
     return ops
@@ -159,6 +159,15 @@ def directed():
                    + [["close"]])
         out.append([["q"]] + [["send", S.KINDS[i % 3], "long", "hdr"] for i in range(n)]
                    + [["close"], ["open"], ["adv", 3.0], ["send", "zone_ctrl", "idem", "inline"]])
+    # a caller that supplies its own headers and uses a packet number again while the earlier
+    # message is still waiting: two messages, two frames
+    for n in (2, 3, 5):
+        out.append([["net", "refuse", 0.0]]
+                   + [["send", "zone_ctrl", "long", "hdr_same"] for _ in range(n)]
+                   + [["send", "ac_ctrl", "long", "hdr_same"], ["send", "ac_ctrl", "idem", "hdr_same"],
+                      ["adv", 4.0]])
+        out.append([["q"]] + [["send", "zone_ctrl", "idem", "hdr_same"] for _ in range(n)]
+                   + [["adv", 1.0]])
     # an unencodable message between good ones, sent at once and held for the next connection
     for how in ("struct", "value"):
         out.append([["q"], ["send", "zone_ctrl", "idem", "inline"], ["send_bad", how, "inline"],
